@@ -36,6 +36,10 @@ let parse_fexpr (s : string) : fexpr =
     match s.[i] with
     | 'Z' -> (FNull, i + 1)
     | 'T' -> if i + 1 >= n then raise Bad else (FThr (nat_of_int (digit s.[i+1] 10)), i + 2)
+    | 'G' | 'H' -> (* user-written tag filters: G<k> passes exactly the tag tag_text k, H<k> rejects exactly it *)
+        if i + 1 >= n then raise Bad else
+        let t = (match s.[i+1] with '0' -> "tg" | '1' -> "" | _ -> raise Bad) in
+        (FTag (s.[i] = 'G', List.init (String.length t) (fun j -> byte_of_int (Char.code t.[j]))), i + 2)
     | 'N' -> let (a, j) = go (i + 1) in (FNot a, j)
     | 'A' -> let (a, j) = go (i + 1) in let (b, k) = go j in (FAnd (a, b), k)
     | 'O' -> let (a, j) = go (i + 1) in let (b, k) = go j in (FOr (a, b), k)
@@ -164,7 +168,7 @@ let spec_tokens w = trace_with spec_prog init_sworld (fun mn sv -> if gate_open 
                        (fun sw rc k -> min_severity sw.s_th rc k)
                        (fun cfg sw lg sv msg ->
                           let r = { r_sev = sv; r_tag = []; r_msg = msg } in
-                          (if holds (sw.s_th lg.lg_rec) lg.lg_filter sv then "W1" else "W0") :: List.map tok_of_event (delivery cfg lg sv r)) w
+                          (if holds (sw.s_th lg.lg_rec) lg.lg_filter sv [] then "W1" else "W0") :: List.map tok_of_event (delivery cfg lg sv r)) w
 
 (* observation line: "-" when nothing happened, else "ev" followed by the event tokens *)
 let line_of_tokens = function [] -> "-" | l -> String.concat " " ("ev" :: l)
